@@ -56,32 +56,111 @@ def check_bookkeeping(ctx, db):
         calls = [c for c in f.walk() if c.k == 'CXXMemberCallExpr' and (c.callee or '') == 'gdstk::RobustPath::' + target]
         ok = bool(calls) and all(norm(c.args[-3 if target != 'arc' else -2].text()) == 'width_' for c in calls)
         ctx.check(ok, 'R-PAIRCALL', 'RobustPath::%s/delegates' % name, f.loc(), 'delegates to %s forwarding the interpolations' % target)
-    # fill_widths_and_offsets: four branches, each loops over all elements and appends once
+    # fill_widths_and_offsets: for each of the four (width_ given?, offset_ given?) valuations the executed statements
+    # append exactly one entry per element: the affine loop summary (sa/loops.py) must show that the element written
+    # in iteration k ranges over elements[0..num_elements) once, that the caller's entry used is the one with the same
+    # index, and that the end value is refreshed from / copied into that same element. The loop form is irrelevant.
+    n += check_fill(ctx, db)
+    ctx.require('R-PAIRCALL obligations', n, 16)
+
+
+def _unwrap_copy(a):
+    a = _strip_casts(a)
+    while a is not None and a.k in ('CXXConstructExpr', 'MaterializeTemporaryExpr', 'CXXBindTemporaryExpr', 'CXXFunctionalCastExpr') and len([x for x in a.c if x is not None]) == 1:
+        a = _strip_casts([x for x in a.c if x is not None][0])
+    return a
+
+
+def check_fill(ctx, db):
+    from .. import loops, minieval
+    from ..linear import lin_add
     f = db.fn('gdstk::RobustPath::fill_widths_and_offsets')
     ctx.touch(f)
-    ifs = [s for s in f.body.c if s is not None and s.k == 'IfStmt']
-    ok = len(ifs) == 2 and norm(ifs[0].child('cond').text()) == '(width_ == NULL)' and norm(ifs[1].child('cond').text()) == '(offset_ == NULL)'
-    for iff, arr, endf in zip(ifs, ('width_array', 'offset_array'), ('end_width', 'end_offset')):
-        for br, is_null in ((iff.child('then'), True), (iff.child('else'), False)):
+    pw, po = f.params[0]['n'], f.params[1]['n']
+    n = 0
+    for arr, endf, pname in (('width_array', 'end_width', pw), ('offset_array', 'end_offset', po)):
+        for given in (False, True):
             n += 1
-            loop = next((l for l in (br.walk() if br is not None else []) if l.k == 'ForStmt'), None)
-            okb = loop is not None
-            if okb:
-                iv = next((v for v in loop.child('init').walk() if v.k == 'VarDecl'), None)
-                okb = iv is not None and norm(iv.child('init').text()) == 'this->num_elements' and norm(loop.child('cond').text()).endswith('> 0)')
-                aps = [c for c in loop.child('body').walk() if c.k == 'CXXMemberCallExpr' and (c.callee or '').endswith('::append')]
-                okb = okb and len(aps) == 1 and norm(aps[0].child('obj').text()).endswith('->' + arr)
-                inc = norm(loop.child('inc').text())
-                okb = okb and 'el++' in inc.replace('(', '').replace(')', '').replace('v', 'el') or okb and '++' in inc
-                if not is_null:
-                    # the caller's array advances with the elements and the end value is refreshed
-                    okb = okb and (arr.split('_')[0] + '_++') in inc.replace('(', '').replace(')', '')
-                    okb = okb and any(is_assign(x) and norm(x.child('lhs').text()).endswith('->' + endf) for x in loop.child('body').walk())
+            key = 'fill_widths_and_offsets/%s/%s' % (arr, 'given' if given else 'default')
+            problems = []
+            for other in (False, True):
+                env = {pname: 1 if given else 0, (po if pname == pw else pw): 1 if other else 0}
+
+                def ev(cond):
+                    try:
+                        return bool(minieval.Mini(db).ev(cond, dict(env)))
+                    except AnalysisBroken:
+                        return None
+                unknown = []
+                ex = tables.executed([f.body], {}, unknown=unknown, evaluator=ev)
+                if unknown:
+                    raise AnalysisBroken('fill_widths_and_offsets: branch `%s` does not fold under %s' % (unknown[0].child('cond').text()[:60], env))
+                aps = []
+                for st, _ in ex:
+                    for c in st.walk():
+                        if c.k == 'CXXMemberCallExpr' and (c.callee or '').split('::')[-1] in ('append', 'append_unsafe'):
+                            o = _strip_casts(c.child('obj'))
+                            if o is not None and o.k == 'MemberExpr' and o.n == arr and not any(c is a for a in aps):
+                                aps.append(c)
+                if len(aps) != 1:
+                    problems.append('%d appends to %s are executed when %s (expected exactly one, in a loop over the elements)' % (len(aps), arr, env))
+                    continue
+                ap = aps[0]
+                L = loops.enclosing_loop(ap)
+                if L is None or not loops.unconditional_in(ap, L):
+                    problems.append('the append to %s is not executed once per iteration of a loop over the elements' % arr)
+                    continue
+                lp = loops.Loop(f, L)
+                ep = lp.element_ptr(ap.child('obj'), ap)
+                order = lp.visits(ep, 'this->elements', {'this->num_elements': 1})
+                if lp.trip() is None or ep is None:
+                    raise AnalysisBroken('fill_widths_and_offsets: loop at %s is not an affine counting loop (trip %s, element %s)' % (L.loc(), lp.trip(), ep))
+                if order is None:
+                    problems.append('the loop at %s runs %s times and appends to element %s: not one entry for each of elements[0..num_elements)' % (L.loc(), lp.trip(), ep))
+                    continue
+                idx = lin_add(ep, {'this->elements': 1}, -1)
+                arg = _unwrap_copy(ap.args[0])
+                body = [x for x in L.child('body').walk()]
+                if given:
+                    aa = lp.addr(arg, ap)
+                    pk = next(('v%d:%s' % (q.d, q.n) for q in f.walk() if q.k == 'DeclRefExpr' and q.dk == 'param' and q.n == pname), None)
+                    if aa is None or pk is None:
+                        raise AnalysisBroken('fill_widths_and_offsets: appended value `%s` is not an element of the caller array' % arg.text()[:40])
+                    if lin_add(lin_add(aa, {pk: 1}, -1), idx, -1):
+                        problems.append('element %s receives the caller entry %s (a different index)' % (idx, lin_add(aa, {pk: 1}, -1)))
+                    ends = [x for x in body if is_assign(x) and x.op == '=' and _strip_casts(x.child('lhs')).k == 'MemberExpr' and _strip_casts(x.child('lhs')).n == endf]
+                    good = False
+                    for x in ends:
+                        r = _strip_casts(x.child('rhs'))
+                        if loops.unconditional_in(x, L) and not lin_add(lp.element_ptr(x.child('lhs'), x) or {1: 99}, ep, -1) and r.k == 'CallExpr' and r.callee == 'gdstk::interp' and len(r.args) == 2:
+                            a0 = lp.addr(_unwrap_copy(r.args[0]), x)
+                            one = _strip_casts(r.args[1])
+                            if a0 is not None and not lin_add(a0, aa, -1) and (one.cv == 1 or one.fv == 1.0):
+                                good = True
+                    if not good:
+                        problems.append('%s of the element is not refreshed with interp(<the appended entry>, 1)' % endf)
                 else:
-                    okb = okb and any(is_assign(x) and norm(x.child('rhs').text()).endswith('->' + endf) for x in loop.child('body').walk())
-            ctx.check(ok and okb, 'R-PAIRCALL', 'fill_widths_and_offsets/%s/%s' % (arr, 'default' if is_null else 'given'), br.loc() if br is not None else f.loc(),
-                      'appends exactly one %s entry to every element (%s)' % (arr, 'constant at the previous end value' if is_null else 'the caller\'s entry for that element; end value refreshed'))
-    ctx.require('R-PAIRCALL obligations', n, 16)
+                    if arg.k != 'DeclRefExpr' or arg.dk != 'local':
+                        raise AnalysisBroken('fill_widths_and_offsets: default entry `%s` is not a local interpolation' % arg.text()[:40])
+                    ak = lvalue_key(arg)
+                    decl = next((v for v in f.walk() if v.k == 'VarDecl' and 'v%d:%s' % (v.d, v.n) == ak), None)
+                    const = decl is not None and decl.child('init') is not None and any(x.k == 'DeclRefExpr' and x.dk == 'enum' and x.n == 'Constant' for x in decl.child('init').walk())
+                    const = const or any(is_assign(x) and lvalue_key(_strip_casts(x.child('lhs'))) == ak + '.type' and 'Constant' in x.child('rhs').text() for x in f.walk())
+                    if not const:
+                        problems.append('the default entry is not of InterpolationType::Constant')
+                    sets = [x for x in body if is_assign(x) and x.op == '=' and x.id < ap.id and lvalue_key(_strip_casts(x.child('lhs'))) in (ak + '.value', ak + '.initial_value')]
+                    good = False
+                    for x in sets:
+                        r = _strip_casts(x.child('rhs'))
+                        if loops.unconditional_in(x, L) and r.k == 'MemberExpr' and r.n == endf and not lin_add(lp.element_ptr(r, x) or {1: 99}, ep, -1):
+                            good = True
+                    if not good:
+                        problems.append('the default entry is not set to %s of the same element before it is appended' % endf)
+            ctx.explored['valuations'] += 2
+            ctx.check(not problems, 'R-PAIRCALL', key, f.loc(),
+                      'appends exactly one %s entry to every element (%s)' % (arr, 'the caller\'s entry with the same index; end value refreshed' if given else 'constant at the element\'s previous end value'),
+                      '; '.join(problems))
+    return n
 
 
 def check_frame(ctx, db):
@@ -188,7 +267,10 @@ def check_exhaust(ctx, db):
         ctx.touch(f)
         n += tables.check_exhaustive(ctx, db, f, enum, frozen_default={(qn, 0): [c['n'] for c in db.enum(enum)['consts']]})
     f = db.fn('gdstk::RobustPath::to_gds')
-    n += tables.check_exhaustive(ctx, db, f, 'gdstk::EndType', frozen_default={('gdstk::RobustPath::to_gds', 0): ['HalfWidth', 'Extended', 'Round', 'Smooth']})
+    from . import C07
+    tb = C07.pathtype_table(db, f)
+    ctx.check(tb == C07.PATHTYPE_SPEC, 'R-TABLE', 'EndType->PATHTYPE/RobustPath', f.loc(), 'RobustPath::to_gds writes PATHTYPE %s' % tb, 'RobustPath::to_gds writes PATHTYPE %s; the format (and read_gds) expect %s' % (tb, C07.PATHTYPE_SPEC))
+    n += 1
     f = db.fn('gdstk::RobustPath::to_oas')
     n += tables.check_exhaustive(ctx, db, f, 'gdstk::EndType', frozen_default={('gdstk::RobustPath::to_oas', 0): ['Extended', 'HalfWidth']})
     ctx.require('R-EXHAUST switches', n, 5)
